@@ -30,8 +30,12 @@ impl Val {
     pub fn int(&self) -> Option<i128> {
         let l = self.list()?;
         if l.len() != 2 { return None }
-        let m = i128::try_from(l[1].num()?).ok()?;
-        match l[0].num()? { 0 => Some(m), 1 => Some(-m), _ => None }
+        let n = l[1].num()?;
+        match l[0].num()? {
+            0 => i128::try_from(n).ok(),
+            1 => if n == (1u128 << 127) { Some(i128::MIN) } else { i128::try_from(n).ok().map(|m| -m) },
+            _ => None,
+        }
     }
     pub fn some(v: Val) -> Val { Val::L(vec![v]) }
     pub fn none() -> Val { Val::L(vec![]) }
